@@ -667,6 +667,12 @@ class Monitor:
             if result[0] == "deadlock" and self.cfg.get("lazy", True) and T.group_reentry():
                 cls = "lazy-wait-across-group-reentry"
             self.add("C05", _outcome_kind(result), f"run() ended with {result}", cls=cls)
+            if exp_loop and result[0] in ("deadlock", "livelock") and cls is None:
+                # a loop that exceeds the bound must be STOPPED WITH THE ERROR, not hang
+                self.add("C09", "loop-not-stopped-with-error",
+                         f"sub-step(s) beyond max_loop_iterations={T.max_loop} are demanded "
+                         f"({ {s: b[:1] for s, b in exp_loop.items()} }) but run() ended with "
+                         f"{result[0]} instead of the SimulationError naming the simulator")
             refused = result[0] == "exc" and result[1] == "ScenarioError" and any(
                 not w[1] for w in getattr(self, "last_async", {}).values())
             # (a request without an async_requests connection is refused with a ScenarioError,
